@@ -2,6 +2,8 @@ import ExprModel.Gen.ParserTables
 import ExprModel.Proofs.ParsePrintTop
 import ExprModel.Proofs.ParserMono
 import ExprModel.Proofs.ParserFuel
+import ExprModel.Proofs.ParserCanonAll2
+import ExprModel.Proofs.ParserErase5
 import ExprModel.Syntax.ParserNum
 import ExprModel.Props.C12
 /-
@@ -126,17 +128,93 @@ theorem parse_print_total {cfg : Cfg} {sh : NumShow} (hs : Setting cfg sh) (t : 
   unfold parse
   rw [← hm]
 
-/-! ### Goal that is stated but not proved in this round -/
+/-! ### The rejection side: the parser accepts nothing but printings of canonical trees -/
 
-/-- Rejection side (the image of the parser): every tree the parser returns is canonical.  Together with
-    `parse_print` this says that the accepted token lists are exactly the printings of canonical trees, up to
-    redundant parentheses, trailing commas and the alternative spellings (`c ?: b`, `.x` for `#.x`,
-    identifier/number map keys).  Not proved; instead the harness compares the real parser with an independent
-    stratified reference grammar (accept/reject and tree) on every explored token sequence. -/
-def parse_image_canonical_goal : Prop :=
-  ∀ (cfg : Cfg), cfg.tb = Gen.parserTables →
-    (∀ s v, cfg.num s = some (.int v) → 0 ≤ v ∧ v < 9223372036854775808) →
-    ∀ (ts : List Token) (f : Nat) (t : Node), parseFuel cfg f ts = .ok t → canon cfg 0 t = true
+/-- the generated builtin table has arities 1 and 2 only -/
+theorem builtin_arities : ∀ n ar, Gen.parserTables.builtins.lookup n = some ar → ar = 1 ∨ ar = 2 := by
+  intro n ar h
+  have hm := mem_of_lookup _ _ _ h
+  have hall : Gen.parserTables.builtins.all (fun x => x.2 == 1 || x.2 == 2) = true := by decide +kernel
+  have := List.all_eq_true.mp hall _ hm
+  simpa using this
+
+/-- what the image theorem assumes: the generated tables, and integer literals read in range (true of
+    `numVia Gen.numCfg`, i.e. of strconv.ParseInt(·, 64)) -/
+structure ImageSetting (cfg : Cfg) : Prop where
+  tables : cfg.tb = Gen.parserTables
+  num_ok : ∀ s v, cfg.num s = some (.int v) → 0 ≤ v ∧ v < 9223372036854775808
+
+theorem ImageSetting.hyp {cfg : Cfg} (h : ImageSetting cfg) : ImgHyp cfg :=
+  ⟨h.num_ok, by rw [h.tables]; exact builtin_arities⟩
+
+/-- **The image of the parser is canonical**: whatever tree the parser model returns — for any fuel and any
+    token list whose EOF tokens do not carry the value `?.` (the lexer's EOF has the empty value) — satisfies
+    `canon`: every operator is in the tables, `matches` carries a compiled pattern iff its right operand is a
+    string literal, closures and `#` occur only where the grammar puts them, pair nodes exactly inside map
+    literals with the map's location, a `NilSafe` identifier only directly before `?.`, no types attached.
+    Proof: induction over the fuel with one invariant per parser function (`CanAt`). -/
+theorem parse_canonical {cfg : Cfg} (hs : ImageSetting cfg) (f : Nat) (ts : List Token) (hE : EofPlain ts)
+    (t : Node) (h : parseFuel cfg f ts = .ok t) : canon cfg 0 t = true :=
+  parseFuel_canonical cfg hs.hyp f ts hE t h
+
+theorem parse_canonical_total {cfg : Cfg} (hs : ImageSetting cfg) (ts : List Token) (hE : EofPlain ts)
+    (t : Node) (h : parse cfg ts = .ok t) : canon cfg 0 t = true := by
+  unfold parse at h
+  cases hp : parseFuel cfg (fuelFor ts) ts with
+  | ok n => rw [hp] at h; cases h; exact parse_canonical hs _ ts hE t hp
+  | error e => rw [hp] at h; cases h
+  | outOfFuel => rw [hp] at h; cases h
+
+/-- **Soundness of acceptance**: every accepted token list denotes the tree that *every* printing of its
+    result denotes — `ts` and `print pc t` (for every choice `pc` of redundant parentheses) parse to the same
+    tree `t`.  With `parse_print` (every printing of a canonical tree is accepted) and `parse_fuel_sufficient`
+    (everything else is rejected with an error) this characterises the accepted language as the token lists
+    that parse like the printings of canonical trees; together with `print_injective` distinct canonical trees
+    never share a text. -/
+theorem parse_sound {cfg : Cfg} {sh : NumShow} (hs : Setting cfg sh) (hi : ImageSetting cfg) (ts : List Token)
+    (hE : EofPlain ts) (t : Node) (h : parse cfg ts = .ok t) (pc : ParenChoice) (l : Loc) :
+    parse cfg (printEof cfg sh pc l t) = parse cfg ts := by
+  rw [h]
+  exact parse_print_total hs t (parse_canonical_total hi ts hE t h) pc l
+
+/-- two canonical trees with a common printing are equal -/
+theorem print_injective {cfg : Cfg} {sh : NumShow} (hs : Setting cfg sh) (t t' : Node)
+    (hc : canon cfg 0 t = true) (hc' : canon cfg 0 t' = true) (pc pc' : ParenChoice) (l : Loc)
+    (h : printEof cfg sh pc l t = printEof cfg sh pc' l t') : t = t' := by
+  have h1 := parse_print_total hs t hc pc l
+  have h2 := parse_print_total hs t' hc' pc' l
+  rw [h, h2] at h1
+  cases h1; rfl
+
+/-! ### An accepted token list *is* a printing of its tree
+
+`eraseText` (Proofs/ParserEraseDefs): the text of a token list up to the spellings the grammar treats alike —
+parentheses and `#` dropped (`.x` is `#.x`), `?.` read as `.` (a plain link after `?.` is nil-safe anyway),
+token kinds forgotten (`{a: 1}` is `{"a": 1}`).  `altFree`: no `?:`, no trailing comma.  `numbersPlain`:
+number tokens spelled the way the printer spells their value. -/
+
+theorem tables_no_hash : EraHyp { tb := Gen.parserTables, num := fun _ => none } :=
+  ⟨by decide +kernel, by decide +kernel⟩
+
+/-- **The accepted language is the set of printings.**  If the parser accepts `ts0 ++ [EOF]` (its only EOF
+    token) with tree `t`, and `ts0` uses neither `?:`, a trailing comma nor an unusual number spelling, then the
+    token list is the printing of `t` — for every choice of redundant parentheses — up to `eraseText`.  With
+    `parse_print` (every printing of a canonical tree is accepted, with that tree) and `parse_canonical` this
+    characterises acceptance exactly: the accepted token lists are the printings of canonical trees, up to
+    parentheses and the listed alternative spellings; everything else is rejected with an error
+    (`parse_fuel_sufficient`). -/
+theorem parse_erase {cfg : Cfg} {sh : NumShow} (hi : ImageSetting cfg) (ts0 : List Token) (t : Node)
+    (h0 : noEof ts0) (h : parse cfg (ts0 ++ [eofTok]) = .ok t)
+    (ha : altFree ts0 = true) (hn : numbersPlain cfg sh ts0) (pc : ParenChoice) :
+    eraseText (ts0 ++ [eofTok]) = eraseText (printEof cfg sh pc {} t) := by
+  have hy : EraHyp cfg := by
+    have := tables_no_hash
+    exact ⟨by rw [hi.tables]; exact this.bin_hash, by rw [hi.tables]; exact this.un_hash⟩
+  unfold parse at h
+  cases hp : parseFuel cfg (fuelFor (ts0 ++ [eofTok])) (ts0 ++ [eofTok]) with
+  | ok n => rw [hp] at h; cases h; exact parseFuel_erase cfg sh hy hi.hyp _ ts0 t h0 hp ha hn pc
+  | error e => rw [hp] at h; cases h
+  | outOfFuel => rw [hp] at h; cases h
 
 /-! ### Non-vacuity and the witness of the one deviation found -/
 
@@ -175,6 +253,16 @@ theorem paren_ident_nilsafe_witness :
     identFlagOf (parseFuel demoCfg 12
       [lparen, tok .identifier "a", rparen, tok .operator "?.", tok .identifier "b", eofTok]) =
         some ("a", false, "b", true) := by
+  decide +kernel
+
+def identNs : Outcome → Option Bool
+  | .ok (.ident _ _ ns) => some ns
+  | _ => none
+
+/-- The hypothesis `EofPlain` of `parse_canonical` is needed: an EOF token spelled `?.` (which the lexer never
+    produces) marks the identifier before it as nil-safe. -/
+theorem eof_plain_needed :
+    identNs (parseFuel demoCfg 8 [tok .identifier "a", { kind := .eof, value := "?." }]) = some true := by
   decide +kernel
 
 end ExprModel.C11
